@@ -40,6 +40,8 @@ def clone(n):
     if isinstance(n, ast.AST):
         new = n.__class__()
         new._oid = getattr(n, '_oid', id(n))
+        if hasattr(n, '_defmod'):
+            new._defmod = n._defmod
         for f in n._fields:
             if hasattr(n, f):
                 setattr(new, f, clone(getattr(n, f)))
@@ -106,6 +108,64 @@ def subst(expr, env):
     e = clone(expr)
     e = _Subst(env).visit(e)
     return e
+
+
+class _Fold(ast.NodeTransformer):
+    """Partial evaluation used by the dispatch analysis: class-attribute tables, literal table look-ups, getattr(self, 'x')."""
+
+    def __init__(self, attr_resolver=None, rewrite=None):
+        self.attr_resolver = attr_resolver
+        self.rewrite = rewrite
+
+    def generic_visit(self, node):
+        node = ast.NodeTransformer.generic_visit(self, node)
+        if self.rewrite is not None and isinstance(node, ast.expr):
+            r = self.rewrite(node)
+            if r is not None:
+                return r
+        return node
+
+    def visit_Attribute(self, n):
+        n = self.generic_visit(n)
+        if isinstance(n, ast.Attribute) and isinstance(n.ctx, ast.Load) and isinstance(n.value, ast.Name) and n.value.id in ('self', 'cls') and self.attr_resolver is not None:
+            v = self.attr_resolver(n.attr)
+            if v is not None:
+                return clone(v)
+        return n
+
+    def visit_Call(self, n):
+        n = self.generic_visit(n)
+        if isinstance(n, ast.Call) and isinstance(n.func, ast.Name) and n.func.id == 'getattr' and len(n.args) == 2 and isinstance(n.args[0], ast.Name) \
+                and isinstance(n.args[1], ast.Constant) and isinstance(n.args[1].value, str):
+            return ast.Attribute(value=n.args[0], attr=n.args[1].value, ctx=ast.Load())
+        return n
+
+    def visit_Subscript(self, n):
+        n = self.generic_visit(n)
+        if isinstance(n, ast.Subscript) and isinstance(n.ctx, ast.Load) and isinstance(n.slice, ast.Constant):
+            if isinstance(n.value, ast.Dict):
+                for k, v in zip(n.value.keys, n.value.values):
+                    if isinstance(k, ast.Constant) and k.value == n.slice.value and type(k.value) is type(n.slice.value):
+                        return v
+            if isinstance(n.value, (ast.Tuple, ast.List)) and isinstance(n.slice.value, int) and not isinstance(n.slice.value, bool) \
+                    and -len(n.value.elts) <= n.slice.value < len(n.value.elts) and not any(isinstance(x, ast.Starred) for x in n.value.elts):
+                return n.value.elts[n.slice.value]
+        return n
+
+
+def decide_membership(e):
+    """`<literal> in <display with literal keys/elements>` -> True / False, else None"""
+    if isinstance(e, ast.Compare) and len(e.ops) == 1 and isinstance(e.ops[0], (ast.In, ast.NotIn)) and isinstance(e.left, ast.Constant):
+        c = e.comparators[0]
+        items = None
+        if isinstance(c, ast.Dict):
+            items = c.keys
+        elif isinstance(c, (ast.List, ast.Tuple, ast.Set)):
+            items = c.elts
+        if items is not None and all(isinstance(k, ast.Constant) for k in items):
+            r = any(k.value == e.left.value and type(k.value) is type(e.left.value) for k in items)
+            return r if isinstance(e.ops[0], ast.In) else (not r)
+    return None
 
 
 _opaque_n = [0]
@@ -425,10 +485,11 @@ def _assigned(stmts):
 
 
 class _Exec(object):
-    def __init__(self, f, inline=None, max_paths=MAX_PATHS, split_calls=True, positional=False, resolver=None, depth=0, init_env=None, effects=None):
+    def __init__(self, f, inline=None, max_paths=MAX_PATHS, split_calls=True, positional=False, resolver=None, depth=0, init_env=None, effects=None, folder=None):
         self.f = f
         self.init_env = init_env
         self.effects = effects
+        self.folder = folder
         self.positional = positional
         self.resolver = resolver
         self.depth = depth
@@ -441,7 +502,10 @@ class _Exec(object):
         return ast.Name(id='%s@%d' % (name, self.havoc_n), ctx=ast.Load())
 
     def sx(self, e, st):
-        return bounded(subst(e, st.env))
+        r = subst(e, st.env)
+        if self.folder is not None:
+            r = self.folder.visit(r)
+        return bounded(r)
 
     def record_calls(self, e, st):
         """events for the calls inside expression e (evaluation order, short-circuit ignored)"""
@@ -512,6 +576,12 @@ class _Exec(object):
                 decided_false = False
                 kept = []
                 for lit in conj:
+                    if len(lit) >= 4:
+                        dm = decide_membership(lit[2])
+                        if dm is not None:
+                            if dm != lit[3]:
+                                decided_false = True
+                            continue
                     if len(lit) >= 4 and not any(isinstance(x, (ast.Name, ast.Call, ast.Attribute, ast.Subscript)) for x in ast.walk(lit[2])):
                         try:
                             from . import evalexpr as _ev
@@ -573,8 +643,13 @@ class _Exec(object):
     def value_facts(self, call, st):
         """`x = helper(args)` where the helper (resolved by the resolver) only computes: no stores, no loops, every path returns
         or raises.  -> [(condition tuple, returned expression)] for its returning paths, or None."""
-        if self.resolver is None or self.depth >= 3:
+        if self.resolver is None or self.depth >= 4:
             return None
+        if self.folder is not None:
+            # the callee may only become known after substitution and folding (`f = getattr(self, TABLE[kind]); f(..)`)
+            fc = self.sx(call.func, st)
+            if isinstance(fc, (ast.Name, ast.Attribute)):
+                call = ast.Call(func=fc, args=call.args, keywords=call.keywords)
         g = self.resolver(call)
         if g is None or g is self.f:
             return None
@@ -592,7 +667,7 @@ class _Exec(object):
         for pn, d in zip(params[len(params) - len(g.args.defaults):], g.args.defaults):
             env.setdefault(pn, clone(d))
         try:
-            ps = _Exec(g, max_paths=32, resolver=self.resolver, depth=self.depth + 1, init_env=env).run()
+            ps = _Exec(g, max_paths=64, resolver=self.resolver, depth=self.depth + 1, init_env=env, folder=self.folder).run()
         except TooManyPaths:
             return None
         if any(ev[0] in ('store', 'loop') for p in ps for ev in p.events):
@@ -600,6 +675,12 @@ class _Exec(object):
         rets = [p for p in ps if p.outcome[0] == 'return']
         if not rets or any(p.outcome[0] not in ('return', 'raise') for p in ps) or len(rets) > 8:
             return None
+        dm = getattr(g, '_mod', None)
+        if dm is not None:
+            for p in rets:
+                for x in ast.walk(p.outcome[3]):
+                    if isinstance(x, ast.Name) and not hasattr(x, '_defmod'):
+                        x._defmod = dm
         return [(p.conds, p.outcome[3]) for p in rets]
 
     def checker_facts(self, call, st):
@@ -625,7 +706,7 @@ class _Exec(object):
         if len(env) < len(params):
             return None
         try:
-            ps = _Exec(g, max_paths=64, resolver=self.resolver, depth=self.depth + 1, init_env=env).run()
+            ps = _Exec(g, max_paths=64, resolver=self.resolver, depth=self.depth + 1, init_env=env, folder=self.folder).run()
         except TooManyPaths:
             return None
         if any(ev[0] in ('store', 'loop') for p in ps for ev in p.events):
@@ -678,7 +759,7 @@ class _Exec(object):
                         for tg in targets:
                             self.assign(tg, rv, env, st, s)
                             if isinstance(tg, (ast.Attribute, ast.Subscript)):
-                                events = events + (('store', '%s = %s' % (ctext(subst(tg, st.env)), ctext(rv)), s, rv, len(st.conds) + len(conds)),)
+                                events = events + (('store', '%s = %s' % (ctext(subst(tg, st.env)), ctext(rv)), s, rv, len(st.conds) + len(conds), subst(tg, st.env)),)
                         out.append(Path(st.conds + conds, events, env, None))
                     return out
             v = self.sx(s.value, st)
@@ -687,7 +768,7 @@ class _Exec(object):
             for tg in targets:
                 self.assign(tg, v, env, st, s)
                 if isinstance(tg, (ast.Attribute, ast.Subscript)):
-                    events = events + (('store', '%s = %s' % (ctext(subst(tg, st.env)), ctext(v)), s, v, len(st.conds)),)
+                    events = events + (('store', '%s = %s' % (ctext(subst(tg, st.env)), ctext(v)), s, v, len(st.conds), subst(tg, st.env)),)
             return [Path(st.conds, events, env, None)]
         if isinstance(s, ast.AugAssign):
             evs = self.record_calls(s.value, st)
